@@ -79,6 +79,10 @@ def gen_history(cat, prop, seed, h, tier):
                 rest = [i for i in ids if not ent[i].get("always")]
                 by_f[f] = sorted(must + rng.sample(rest, max(0, per - len(must))))
     ids_all = [i for f in chosen for i in by_f[f]]
+    dask_ids = [i for i in ids_all if ent[i]["backend"] == "dask" and ent[i]["identity"] in ("same", "hotspots")
+                and not ent[i].get("expect_error")]
+    used_rids = {r for i in ids_all for r in ent[i]["rasters"]}
+    twins_here = [t for t in cat.get("twins", []) if t[0] in used_rids and t[1] in used_rids]
     L = rng.randint(30, 90) if tier == "quick" else rng.randint(60, 400)
     heavy_left = 6 if tier == "quick" else 40
     ops = []
@@ -112,18 +116,50 @@ def gen_history(cat, prop, seed, h, tier):
             b = rng.choice(ids_all)
             push_call(b)
             push_call(a)
-        elif r < 0.91:
+        elif r < 0.905:
             ops.append({"k": "scribble"})
-        elif r < 0.94:
+        elif r < 0.925 and prop == "C11" and dask_ids:
+            # two lazy results pending at once, computed in one dask.compute (one merged graph)
+            a = rng.choice(dask_ids)
+            same = [i for i in dask_ids if i != a and ent[i][fkey] == ent[a][fkey]]
+            b = rng.choice(same) if same and rng.random() < 0.7 else rng.choice(dask_ids)
+            if a != b and heavy_left > 1:
+                heavy_left -= 2 if ent[a]["heavy"] else 0
+                ops.append({"k": "joint", "e": [a, b]})
+        elif r < 0.94 and prop == "C11" and twins_here:
+            # the user edits a live raster in place (it becomes its twin), then calls again
+            a, b = rng.choice(twins_here)
+            if rng.random() < 0.5:
+                a, b = b, a
+            ops.append({"k": "edit", "a": a, "b": b})
+            users = [i for i in ids_all if b in ent[i]["rasters"] and not ent[i]["heavy"]]
+            if users:
+                push_call(rng.choice(users))
+        elif r < 0.95:
             ops.append({"k": "bump", "w": rng.choice([8, 16]), "h": rng.choice([6, 9]), "spread": rng.choice([1, 2])})
-        elif r < 0.96:
+        elif r < 0.965:
             ops.append({"k": "threads", "n": rng.choice([1, 2, 16])})
-        elif r < 0.975:
+        elif r < 0.978:
             ops.append({"k": "restart"})
         elif tier == "thorough" and ids_all:
             ops.append({"k": "interrupt", "e": rng.choice(ids_all), "at": rng.randint(1, 40)})
         else:
             push_call(rng.choice(ids_all))
+    if prop == "C11":
+        kinds = {o["k"] for o in ops}
+        if "joint" not in kinds and len(dask_ids) >= 2:
+            a = rng.choice(dask_ids)
+            same = [i for i in dask_ids if i != a and ent[i][fkey] == ent[a][fkey]]
+            b = rng.choice(same) if same else rng.choice([i for i in dask_ids if i != a])
+            ops.append({"k": "joint", "e": [a, b]})
+        if "edit" not in kinds and twins_here:
+            a, b = rng.choice(twins_here)
+            users_a = [i for i in ids_all if a in ent[i]["rasters"] and not ent[i]["heavy"] and ent[i]["backend"] == "numpy"]
+            users_b = [i for i in ids_all if b in ent[i]["rasters"] and not ent[i]["heavy"] and ent[i]["backend"] == "numpy"]
+            if users_a and users_b:
+                ops.append({"k": "call", "e": rng.choice(users_a)})
+                ops.append({"k": "edit", "a": a, "b": b})
+                ops.append({"k": "call", "e": rng.choice(users_b)})
     return {"h": h, "mode": rng.choice(["shared", "shared", "fresh"]),
             "threads": rng.choice([1, 2, 16]), "ops": ops, "families": chosen,
             "sched_seed": util.derive_seed(seed, prop, "hist-sched", h)}
@@ -291,6 +327,51 @@ def run_history(prop, cat, hist, refs, start=0, max_violations=3):
         last = (e, rasters, o)
         prev_entry = e
 
+    def run_joint(step, ea, eb):
+        """Two Dask-backed calls left lazy, then computed together in one dask.compute."""
+        nonlocal last, prev_entry
+        import dask
+        import random as _random
+        from . import determinism
+        from .cases import OPS
+        from .graphsim import SimScheduler, under
+        ra, rb = get_rasters(ea), get_rasters(eb)
+        pol = draw_policy(rng)
+        seed = util.derive_seed(hist["sched_seed"], step, "joint")
+        determinism.reseed(util.derive_seed(seed, "uuid"))
+        sim = SimScheduler(_random.Random(util.derive_seed(seed, "sched")), policy=pol[0], policy_arg=pol[1])
+        import warnings
+        try:
+            with warnings.catch_warnings():
+                warnings.simplefilter("ignore")
+                with np.errstate(all="ignore"), under(sim):
+                    oa = OPS[ea["op"]]([r.da for r in ra], ea["params"])
+                    ob = OPS[eb["op"]]([r.da for r in rb], eb["params"])
+                    ca, cb = dask.compute(oa, ob)
+        except Exception as exc:
+            res["notes"]["joint_compute_raised:%s" % type(exc).__name__] += 1
+            if prop == "C11":
+                violation(step, "joint", eb, {"class": "joint_compute_raises", "with_entry": ea["id"],
+                                              "exc": {"type": type(exc).__name__, "msg": str(exc)[:300]}})
+            return
+        res["faults"]["joint_compute"] += 1
+        res["calls"] += 2
+        res["dask_calls"] += 2
+        res["sim_steps"] += sim.step
+        for e, cres, other in ((ea, ca, eb), (eb, cb, ea)):
+            canon = histsim.canon_result(cres)
+            canon["lazy"] = True          # it was lazy when the library returned it
+            dg = histsim.result_digest(canon)
+            trace.update(("%d|j%d|%s;" % (step, e["id"], dg)).encode())
+            res["pairs"].add((other["id"], e["id"]))
+            if prop == "C11":
+                ref = refs.get(str(e["id"]))
+                if ref is not None and ref["digest"] != dg:
+                    violation(step, "joint", e, {"class": "result_differs_from_fresh_interpreter",
+                                                 "computed_together_with_entry": other["id"],
+                                                 "got_digest": dg, "want_digest": ref["digest"], "_canon": canon})
+        prev_entry = eb
+
     ops = hist["ops"]
     i = start
     while i < len(ops):
@@ -325,6 +406,22 @@ def run_history(prop, cat, hist, refs, start=0, max_violations=3):
                             for what, detail in r.problems(allow_widen=(e["identity"] == "viewshed")):
                                 violation(i, "scribble", e, {"class": "scribble_shows_in_input_" + what,
                                                              "raster": r.rid, "detail": detail})
+        elif k == "joint":
+            run_joint(i, ent[op["e"][0]], ent[op["e"][1]])
+        elif k == "edit":
+            n_edit = 0
+            if shared:
+                for key, r in list(pool.items()):
+                    if r.rid == op["a"] and r.backend == "numpy" and r.arr.flags.writeable and not r.problems():
+                        spec_b = pool_specs[op["b"]]
+                        r.arr[...] = np.asarray(spec_b["data"])
+                        r.spec = spec_b
+                        r.rid = op["b"]
+                        r.base_digest = histsim._buf_digest(r.base)
+                        del pool[key]
+                        pool[(op["b"],) + key[1:]] = r
+                        n_edit += 1
+            res["faults"]["user_edits_raster_in_place" if n_edit else "edit_without_live_raster"] += 1
         elif k == "bump":
             from .cases import OPS
             OPS["bump"]([], {"width": op["w"], "height": op["h"], "spread": op["spread"]})
